@@ -187,8 +187,13 @@ func (s *SearchParams) QueryEscape(st string, output *strings.Builder) {
 
 // Clone returns a deep copy of the search parameters.
 func (s *SearchParams) Clone() *SearchParams {
+	return s.cloneFor(s.url)
+}
+
+// cloneFor returns a deep copy of the search parameters which is bound to (writes through to) url.
+func (s *SearchParams) cloneFor(url *Url) *SearchParams {
 	sp := &SearchParams{
-		url:    s.url,
+		url:    url,
 		params: make([]*NameValuePair, len(s.params)),
 	}
 	for i, nvp := range s.params {
